@@ -238,11 +238,11 @@ def execute(prov: dict, script: list[dict], flavour: str, scripted_port: int, bl
         with provider.installed(factory):
             kw = dict(server="dc01", username="u", password="p", auth_protocol="negotiate")
             try:
-                with taps.time_limit(20):
+                with taps.time_limit(60):
                     if flavour == "sync":
                         pt = dpapi_ng.ncrypt_unprotect_secret(blob, **kw)
                     else:
-                        pt = _LOOP.run_until_complete(asyncio.wait_for(dpapi_ng.async_ncrypt_unprotect_secret(blob, **kw), 5))
+                        pt = _LOOP.run_until_complete(asyncio.wait_for(dpapi_ng.async_ncrypt_unprotect_secret(blob, **kw), 40))
                 if pt != b"handshake-payload":
                     end, exc = "error", "wrong plaintext"
             except (asyncio.TimeoutError, taps.Hang):
